@@ -30,7 +30,7 @@ def sh(cmd, **kw):
 
 
 def main():
-    ids = sys.argv[1:] or sorted(d for d in os.listdir(f"{V}/seeded") if re.fullmatch(r"C\d\d-\d", d))
+    ids = sys.argv[1:] or sorted(d for d in os.listdir(f"{V}/seeded") if re.fullmatch(r"C\d\d-\d+", d))
     claimed = {p["property_id"] for p in json.load(open(f"{V}/MANIFEST.json"))["checks"]}
     results = {}
     for sid in ids:
@@ -51,7 +51,7 @@ def main():
             continue
         meta["applies"] = True
         try:
-            for chk in [prop] + EXTRA.get(sid, []):
+            for chk in [prop] + ([] if os.environ.get("MATRIX_OWN_ONLY") else EXTRA.get(sid, [])):
                 if chk not in claimed:
                     meta["checks"][chk] = {"status": "no check"}
                     continue
